@@ -39,7 +39,7 @@ class Check(RuntimeCheck):
     design_ref = 'DESIGN.md §4.2, §5 C14'
     theorems = ['C14_tuple_impls_in_order', 'generated_table_in_order', 'C14_deconstruct_flatten', 'C14_real_tuples_flatten',
                 'push_spec', 'C14_assemble_error_iff', 'C14_new_mock_error_iff', 'C14_ordered_only_exact_counts',
-                'C14_then_only_after_exact', 'run_inOrder_no_atLeast', 'run_then_position', 'C14_ordered_chain_is_exact']
+                'C14_then_only_after_exact', 'run_inOrder_no_atLeast', 'run_then_position', 'C14_ordered_chain_is_exact', 'C14_source_push_sequence', 'C14_source_push', 'C14_source_typestate_step', 'C14_source_entry_points', 'C14_source_clause_structs']
 
     def rule(self):
         return ("translator: the table of tuple impls is regenerated from /repo/src/clause.rs and re-checked by `decide`; "
